@@ -119,11 +119,11 @@ func (p *_RemoveUnusedPass) markFuncReachable(fn *funcObj) {
 func (p *_RemoveUnusedPass) markFuncReachable_ins(ins ast.Instruction) {
 	switch ins := ins.(type) {
 	case ast.Ins_Call:
-		if xFn := p.funcs[ins.X]; xFn.color == white {
+		if xFn := p.funcs[ins.X]; xFn != nil && xFn.color == white {
 			p.markFuncReachable(xFn)
 		}
 	case ast.Ins_TableSet:
-		if xFn := p.funcs[ins.TableIdx]; xFn.color == white {
+		if xFn := p.funcs[ins.TableIdx]; xFn != nil && xFn.color == white {
 			p.markFuncReachable(xFn)
 		}
 	case ast.Ins_Block:
